@@ -28,11 +28,29 @@ class Env:
         self.target_overlay: Any = None
         self.extra_cleanup: list[Callable] = []
         self.on_target: Callable[[], None] | None = None
+        self.stopped = False
 
     def node(self, **kw: Any) -> Node:
         nd = Node(self.net, len(self.nodes), **kw)
         self.nodes.append(nd)
         return nd
+
+    def t(self, fn: Callable[[], Any]) -> Any:
+        """
+        An application-level call on the observed overlay: skipped once the check has asked it to unload (the
+        property is about what the overlay does by itself, not about a user who keeps calling it).
+        """
+        if self.stopped:
+            return None
+        return fn()
+
+    async def ta(self, fn: Callable[[], Any], timeout: float = 15) -> Any:
+        if self.stopped:
+            return None
+        try:
+            return await asyncio.wait_for(fn(), timeout)
+        except (Exception, asyncio.CancelledError):  # noqa: BLE001 - the overlay may cancel its own request tasks
+            return None
 
     def target(self, node: Node, overlay: Any) -> None:
         self.target_node, self.target_overlay = node, overlay
@@ -68,11 +86,15 @@ async def sc_base(loop: Any, env: Env) -> None:
     ovs = [nd.add(cls) for nd in nodes]
     env.target(nodes[0], ovs[0])
     ovs[1].walk_to(nodes[0].address)
-    ovs[2].walk_to(nodes[0].address)
     await asyncio.sleep(0.1)
-    ovs[0].walk_to(nodes[3].address)
+    ovs[2].walk_to(nodes[0].address)          # the target introduces node 1 and asks it to puncture
     await asyncio.sleep(0.1)
-    # ask the target for introductions (it answers and sends puncture requests), and the target asks others
+    env.t(lambda: ovs[0].walk_to(nodes[3].address))          # node 3 learns about the target
+    await asyncio.sleep(0.1)
+    ovs[1].walk_to(nodes[3].address)          # node 3 introduces the target: puncture-request -> target punctures
+    await asyncio.sleep(0.1)
+    env.t(lambda: ovs[0].walk_to(nodes[3].address))          # node 3 introduces node 1 to the target
+    await asyncio.sleep(0.1)
     p0 = [p for p in ovs[1].get_peers() if p.public_key.key_to_bin() == nodes[0].key.pub().key_to_bin()]
     if p0:
         ovs[1].send_introduction_request(p0[0])
@@ -80,10 +102,31 @@ async def sc_base(loop: Any, env: Env) -> None:
         ovs[1].send_introduction_request(p0[0])
     await asyncio.sleep(0.1)
     for p in ovs[0].get_peers():
-        ovs[0].send_introduction_request(p)
+        env.t(lambda p=p: ovs[0].send_introduction_request(p))
     await asyncio.sleep(0.1)
-    ovs[2].get_new_introduction()
-    ovs[0].get_new_introduction()
+    for _ in range(3):
+        ovs[2].get_new_introduction()
+        ovs[3].get_new_introduction()
+        env.t(lambda: ovs[0].get_new_introduction())
+        await asyncio.sleep(0.1)
+    await asyncio.sleep(0.5)
+
+
+async def sc_base_tunnel_endpoint(loop: Any, env: Env) -> None:
+    """
+    A plain (non-anonymised) Community whose node uses a TunnelEndpoint wrapper, as Tribler-style deployments do.
+    """
+    cls = _mk_community("PlainCommunity2", b"\x12" * 20)
+    nodes = [env.node(tunnel_endpoint=(i == 0)) for i in range(3)]
+    ovs = [nd.add(cls) for nd in nodes]
+    env.target(nodes[0], ovs[0])
+    ovs[1].walk_to(nodes[0].address)
+    await asyncio.sleep(0.1)
+    env.t(lambda: ovs[0].walk_to(nodes[2].address))
+    await asyncio.sleep(0.1)
+    ovs[2].walk_to(nodes[0].address)
+    for p in ovs[0].get_peers():
+        env.t(lambda p=p: ovs[0].send_introduction_request(p))
     await asyncio.sleep(0.5)
 
 
@@ -94,13 +137,13 @@ async def sc_discovery(loop: Any, env: Env) -> None:
     env.target(nodes[0], ovs[0])
     ovs[1].walk_to(nodes[0].address)
     await asyncio.sleep(0.1)
-    ovs[0].walk_to(nodes[2].address)
+    env.t(lambda: ovs[0].walk_to(nodes[2].address))
     await asyncio.sleep(0.1)
     for p in ovs[1].get_peers():
         ovs[1].send_ping(p)
     for p in ovs[0].get_peers():
-        ovs[0].send_ping(p)
-        ovs[0].send_similarity_request(p.address)
+        env.t(lambda p=p: ovs[0].send_ping(p))
+        env.t(lambda p=p: ovs[0].send_similarity_request(p.address))
     await asyncio.sleep(0.1)
     ovs[2].walk_to(nodes[0].address)
     await asyncio.sleep(6.0)     # ping cache timeout is 5 s
@@ -116,26 +159,22 @@ async def sc_dht(loop: Any, env: Env) -> None:
     await asyncio.sleep(0.2)
     for i in range(1, 4):
         ovs[i].walk_to(nodes[i + 1].address)
-        ovs[0].walk_to(nodes[i].address)
+        env.t(lambda i=i: ovs[0].walk_to(nodes[i].address))
     await asyncio.sleep(0.5)
     key = b"\x42" * 20
-    for who in (1, 0):
+    async def quiet(coro: Any) -> None:
         try:
-            await asyncio.wait_for(ovs[who].store_value(key, b"value-%d" % who, sign=bool(who)), 15)
-        except Exception:  # noqa: BLE001
+            await asyncio.wait_for(coro, 15)
+        except (Exception, asyncio.CancelledError):  # noqa: BLE001
             pass
-    for who in (2, 0):
-        try:
-            await asyncio.wait_for(ovs[who].find_values(key), 15)
-        except Exception:  # noqa: BLE001
-            pass
-    try:
-        await asyncio.wait_for(ovs[3].store_peer(), 15)
-        await asyncio.wait_for(ovs[0].store_peer(), 15)
-        await asyncio.wait_for(ovs[2].connect_peer(nodes[3].my_peer.mid), 15)
-        await asyncio.wait_for(ovs[0].connect_peer(nodes[3].my_peer.mid), 15)
-    except Exception:  # noqa: BLE001
-        pass
+    await quiet(ovs[1].store_value(key, b"value-1", sign=True))
+    await env.ta(lambda: ovs[0].store_value(key, b"value-0", sign=False))
+    await quiet(ovs[2].find_values(key))
+    await env.ta(lambda: ovs[0].find_values(key))
+    await quiet(ovs[3].store_peer())
+    await env.ta(lambda: ovs[0].store_peer())
+    await quiet(ovs[2].connect_peer(nodes[3].my_peer.mid))
+    await env.ta(lambda: ovs[0].connect_peer(nodes[3].my_peer.mid))
     await asyncio.sleep(12.0)    # ping_all every 10 s
 
 
@@ -158,15 +197,15 @@ async def sc_tunnel(loop: Any, env: Env) -> None:
     random.seed(3)
     tov = nodes[0].overlay
     # the target as originator
-    c1 = tov.create_circuit(2)
+    c1 = env.t(lambda: tov.create_circuit(2))
     await asyncio.sleep(0.3)
     if c1 is not None and c1.state == "READY":
-        tov.send_data(c1.hop.address, c1.circuit_id, ("5.5.5.5", 5555), ("0.0.0.0", 0), b"d4:spame")
+        env.t(lambda: tov.send_data(c1.hop.address, c1.circuit_id, ("5.5.5.5", 5555), ("0.0.0.0", 0), b"d4:spame"))
         await asyncio.sleep(0.1)
         for t in loop.transports:
             if t.sent and not t.closed and t.local_addr[0] == "0.0.0.0":
                 t.inject(b"d5:replye", ("5.5.5.5", 5555))
-        tov.send_test_request(c1, 10, 20)
+        env.t(lambda: tov.send_test_request(c1, 10, 20))
     # the target as relay / exit of other nodes' circuits
     for seed, origin, hops in ((4, 1, 3), (5, 2, 1), (6, 3, 2), (7, 1, 1)):
         random.seed(seed)
@@ -183,7 +222,7 @@ async def sc_tunnel(loop: Any, env: Env) -> None:
             t.inject(b"d6:answere", t.sent[0][1])
     await asyncio.sleep(8.0)      # do_ping after 7.5 s
     if c1 is not None:
-        tov.remove_circuit(c1.circuit_id, "done", destroy=True)
+        env.t(lambda: tov.remove_circuit(c1.circuit_id, "done", destroy=True))
     for origin in (2, 3):
         ov = nodes[origin].overlay
         for cid in list(ov.circuits):
@@ -196,14 +235,14 @@ async def sc_pex(loop: Any, env: Env) -> None:
     nodes = [env.node() for _ in range(3)]
     ovs = [nd.add(PexCommunity, info_hash=b"\x07" * 20) for nd in nodes]
     env.target(nodes[0], ovs[0])
-    ovs[0].start_announce(b"seeder-key-0")
+    env.t(lambda: ovs[0].start_announce(b"seeder-key-0"))
     ovs[1].start_announce(b"seeder-key-1")
     ovs[1].walk_to(nodes[0].address)
     ovs[2].walk_to(nodes[0].address)
     await asyncio.sleep(0.1)
-    ovs[0].walk_to(nodes[2].address)
+    env.t(lambda: ovs[0].walk_to(nodes[2].address))
     for p in ovs[0].get_peers():
-        ovs[0].send_ping(p)
+        env.t(lambda p=p: ovs[0].send_ping(p))
     await asyncio.sleep(0.5)
 
 
@@ -219,17 +258,24 @@ async def sc_identity(loop: Any, env: Env) -> None:
     env.target(nodes[0], ovs[0])
     peer = {i: {j: [p for p in ovs[i].get_peers() if p.public_key.key_to_bin() == nodes[j].key.pub().key_to_bin()][0]
                 for j in range(3) if j != i} for i in range(3)}
-    # the target as attester
+    # the target as attester of a subject with a long chain: the disclosure is trimmed, missing tokens are requested
+    for i in range(14):
+        ovs[1].self_advertise(bytes([0x40 + i]) * 32, "own%d" % i)
     h1 = b"\x01" * 32
-    ovs[0].add_known_hash(h1, "attribute", nodes[1].key.pub().key_to_bin())
+    env.t(lambda: ovs[0].add_known_hash(h1, "attribute", nodes[1].key.pub().key_to_bin()))
     ovs[1].request_attestation_advertisement(peer[1][0], h1, "attribute")
-    await asyncio.sleep(0.3)
-    # the target as subject, with a longer chain so that missing tokens are requested
-    for i in range(4):
-        ovs[0].self_advertise(bytes([0x20 + i]) * 32, "self%d" % i)
+    await asyncio.sleep(0.5)
+    # the target as subject, also with a long chain
+    for i in range(14):
+        env.t(lambda i=i: ovs[0].self_advertise(bytes([0x20 + i]) * 32, "self%d" % i))
     h2 = b"\x02" * 32
     ovs[2].add_known_hash(h2, "other", nodes[0].key.pub().key_to_bin())
-    ovs[0].request_attestation_advertisement(peer[0][2], h2, "other")
+    env.t(lambda: ovs[0].request_attestation_advertisement(peer[0][2], h2, "other"))
+    await asyncio.sleep(0.5)
+    # a short honest exchange as well
+    h3 = b"\x03" * 32
+    env.t(lambda: ovs[0].add_known_hash(h3, "third", nodes[2].key.pub().key_to_bin()))
+    ovs[2].request_attestation_advertisement(peer[2][0], h3, "third")
     await asyncio.sleep(0.5)
 
 
@@ -249,14 +295,19 @@ async def sc_attestation(loop: Any, env: Env) -> None:
     p01 = ovs[0].get_peers()[0]
     p10 = ovs[1].get_peers()[0]
     got: dict = {}
-    ovs[0].set_attestation_request_callback(lambda peer, name, md: succeed(b"AttributeValue"))
+    def slow_value(peer: Any, name: str, md: Any) -> Any:
+        # the user of the observed node takes two seconds to decide: the handler coroutine is pending meanwhile
+        fut = loop.create_future()
+        loop.call_later(2.0, lambda: fut.done() or fut.set_result(b"AttributeValue"))
+        return fut
+    ovs[0].set_attestation_request_callback(slow_value)
     ovs[1].set_attestation_request_callback(lambda peer, name, md: succeed(b"OtherValue"))
     ovs[1].set_attestation_request_complete_callback(lambda *a: None)
     # node 1 asks the target to attest; node 1 then owns an attestation
     ovs[1].request_attestation(p10, "MyAttribute", sk)
-    await asyncio.sleep(1.0)
+    await asyncio.sleep(3.0)
     # the target asks node 1 to attest; the target then owns one as well
-    ovs[0].request_attestation(p01, "Mine", sk)
+    env.t(lambda: ovs[0].request_attestation(p01, "Mine", sk))
     await asyncio.sleep(1.0)
     # verification in both directions
     for owner, verifier, vpeer in ((1, 0, nodes[1].address), (0, 1, nodes[0].address)):
@@ -264,13 +315,18 @@ async def sc_attestation(loop: Any, env: Env) -> None:
         if not hashes:
             continue
         ovs[owner].set_verify_request_callback(lambda peer, h: succeed(True))
-        ovs[verifier].verify_attestation_values(vpeer, hashes[0], [b"AttributeValue", b"OtherValue"],
-                                                lambda h, v: got.setdefault(h, v), "id_metadata")
+        call = (lambda verifier=verifier, vpeer=vpeer, hashes=hashes: ovs[verifier].verify_attestation_values(
+            vpeer, hashes[0], [b"AttributeValue", b"OtherValue"], lambda h, v: got.setdefault(h, v), "id_metadata"))
+        if verifier == 0:
+            env.t(call)
+        else:
+            call()
     await asyncio.sleep(2.0)
 
 
 SCENARIOS: dict[str, Callable] = {
     "base": sc_base,
+    "base_te": sc_base_tunnel_endpoint,
     "discovery": sc_discovery,
     "dht": sc_dht,
     "tunnel": sc_tunnel,
